@@ -176,6 +176,13 @@ def build_obstacle(od):
     init = InitialState(time_step=od["t0"], position=V([x, y]), orientation=th, velocity=1.0, acceleration=0.0,
                         yaw_rate=0.0, slip_angle=0.0)
     shape = build_shape(od["shape"])
+    if zlib.crc32(repr(sorted(od["shape"].items(), key=str)).encode()) % 3 == 0:
+        # the footprint was looked at before the obstacle was put together (drawn, measured): whatever the shape
+        # remembers from that must not travel with the copies placed at the states (seed C07-15)
+        for m in (shape.shapes if isinstance(shape, ShapeGroup) else [shape]):
+            _ = m.shapely_object
+            if hasattr(m, "vertices"):
+                _ = m.vertices
     if od["role"] == "static":
         return StaticObstacle(od["id"], ObstacleType.PARKED_VEHICLE, shape, init)
     if od["role"] == "none":
